@@ -134,6 +134,148 @@ theorem monotone_builtinCall (f : γ → Task → M Value) (b : Builtin) (ts : L
   mono_all hmono
 
 @[partial_fixpoint_monotone]
+theorem monotone_std_filter (cfg : Cfg) (f : γ → Task → M Value) (t0 t1 : TId) (d1 : Nat)
+    (hmono : monotone f) : monotone (fun x => std_filter cfg (f x) t0 t1 d1) := by
+  unfold std_filter
+  mono_all hmono
+
+@[partial_fixpoint_monotone]
+theorem monotone_std_foldl (cfg : Cfg) (f : γ → Task → M Value) (t0 t1 t2 : TId) (d1 : Nat)
+    (hmono : monotone f) : monotone (fun x => std_foldl cfg (f x) t0 t1 t2 d1) := by
+  unfold std_foldl
+  mono_all hmono
+
+@[partial_fixpoint_monotone]
+theorem monotone_std_foldr (cfg : Cfg) (f : γ → Task → M Value) (t0 t1 t2 : TId) (d1 : Nat)
+    (hmono : monotone f) : monotone (fun x => std_foldr cfg (f x) t0 t1 t2 d1) := by
+  unfold std_foldr
+  mono_all hmono
+
+@[partial_fixpoint_monotone]
+theorem monotone_std_flatMap (cfg : Cfg) (f : γ → Task → M Value) (t0 t1 : TId) (d1 : Nat)
+    (hmono : monotone f) : monotone (fun x => std_flatMap cfg (f x) t0 t1 d1) := by
+  unfold std_flatMap
+  mono_all hmono
+
+@[partial_fixpoint_monotone]
+theorem monotone_std_mapWithIndex (f : γ → Task → M Value) (t0 t1 : TId) (d1 : Nat)
+    (hmono : monotone f) : monotone (fun x => std_mapWithIndex (f x) t0 t1 d1) := by
+  unfold std_mapWithIndex
+  mono_all hmono
+
+@[partial_fixpoint_monotone]
+theorem monotone_std_mapWithKey (f : γ → Task → M Value) (t0 t1 : TId) (d1 : Nat)
+    (hmono : monotone f) : monotone (fun x => std_mapWithKey (f x) t0 t1 d1) := by
+  unfold std_mapWithKey
+  mono_all hmono
+
+@[partial_fixpoint_monotone]
+theorem monotone_std_filterMap (cfg : Cfg) (f : γ → Task → M Value) (t0 t1 t2 : TId) (d1 : Nat)
+    (hmono : monotone f) : monotone (fun x => std_filterMap cfg (f x) t0 t1 t2 d1) := by
+  unfold std_filterMap
+  mono_all hmono
+
+@[partial_fixpoint_monotone]
+theorem monotone_std_join (f : γ → Task → M Value) (t0 t1 : TId) (d1 : Nat)
+    (hmono : monotone f) : monotone (fun x => std_join (f x) t0 t1 d1) := by
+  unfold std_join
+  mono_all hmono
+
+@[partial_fixpoint_monotone]
+theorem monotone_std_range (f : γ → Task → M Value) (t0 t1 : TId) (d1 : Nat)
+    (hmono : monotone f) : monotone (fun x => std_range (f x) t0 t1 d1) := by
+  unfold std_range
+  mono_all hmono
+
+@[partial_fixpoint_monotone]
+theorem monotone_std_member (f : γ → Task → M Value) (t0 t1 : TId) (d1 : Nat)
+    (hmono : monotone f) : monotone (fun x => std_member (f x) t0 t1 d1) := by
+  unfold std_member
+  mono_all hmono
+
+@[partial_fixpoint_monotone]
+theorem monotone_std_count (f : γ → Task → M Value) (t0 t1 : TId) (d1 : Nat)
+    (hmono : monotone f) : monotone (fun x => std_count (f x) t0 t1 d1) := by
+  unfold std_count
+  mono_all hmono
+
+@[partial_fixpoint_monotone]
+theorem monotone_std_all (f : γ → Task → M Value) (t : TId) (d1 : Nat)
+    (hmono : monotone f) : monotone (fun x => std_all (f x) t d1) := by
+  unfold std_all
+  mono_all hmono
+
+@[partial_fixpoint_monotone]
+theorem monotone_std_any (f : γ → Task → M Value) (t : TId) (d1 : Nat)
+    (hmono : monotone f) : monotone (fun x => std_any (f x) t d1) := by
+  unfold std_any
+  mono_all hmono
+
+@[partial_fixpoint_monotone]
+theorem monotone_std_equals (f : γ → Task → M Value) (t0 t1 : TId) (d1 : Nat)
+    (hmono : monotone f) : monotone (fun x => std_equals (f x) t0 t1 d1) := by
+  unfold std_equals
+  mono_all hmono
+
+@[partial_fixpoint_monotone]
+theorem monotone_std_compare (f : γ → Task → M Value) (t0 t1 : TId) (d1 : Nat)
+    (hmono : monotone f) : monotone (fun x => std_compare (f x) t0 t1 d1) := by
+  unfold std_compare
+  mono_all hmono
+
+@[partial_fixpoint_monotone]
+theorem monotone_std_primitiveEquals (f : γ → Task → M Value) (t0 t1 : TId) (d1 : Nat)
+    (hmono : monotone f) : monotone (fun x => std_primitiveEquals (f x) t0 t1 d1) := by
+  unfold std_primitiveEquals
+  mono_all hmono
+
+@[partial_fixpoint_monotone]
+theorem monotone_std_assertEqual (f : γ → Task → M Value) (t0 t1 : TId) (d1 : Nat)
+    (hmono : monotone f) : monotone (fun x => std_assertEqual (f x) t0 t1 d1) := by
+  unfold std_assertEqual
+  mono_all hmono
+
+@[partial_fixpoint_monotone]
+theorem monotone_std_toString (f : γ → Task → M Value) (t : TId) (d1 : Nat)
+    (hmono : monotone f) : monotone (fun x => std_toString (f x) t d1) := by
+  unfold std_toString
+  mono_all hmono
+
+@[partial_fixpoint_monotone]
+theorem monotone_std_sortKeys (cfg : Cfg) (f : γ → Task → M Value) (kf : Option FId) (items : List TId) (d1 : Nat)
+    (hmono : monotone f) : monotone (fun x => std_sortKeys cfg (f x) kf items d1) := by
+  unfold std_sortKeys
+  mono_all hmono
+
+@[partial_fixpoint_monotone]
+theorem monotone_std_qsort (f : γ → Task → M Value) (keys : List Value) (d1 : Nat) (fuel : Nat) (xs : List Nat)
+    (hmono : monotone f) : monotone (fun x => std_qsort (f x) keys d1 fuel xs) := by
+  induction fuel generalizing xs with
+  | zero => unfold std_qsort; apply monotone_const
+  | succ k ih =>
+    cases xs with
+    | nil => unfold std_qsort; apply monotone_const
+    | cons p rest =>
+      cases rest with
+      | nil => unfold std_qsort; apply monotone_const
+      | cons q rest =>
+        unfold std_qsort
+        mono_all hmono
+        all_goals exact ih _
+
+@[partial_fixpoint_monotone]
+theorem monotone_std_sortSet (cfg : Cfg) (f : γ → Task → M Value) (u : Bool) (t0 : TId) (t1 : Option TId) (d1 : Nat)
+    (hmono : monotone f) : monotone (fun x => std_sortSet cfg (f x) u t0 t1 d1) := by
+  unfold std_sortSet
+  mono_all hmono
+
+@[partial_fixpoint_monotone]
+theorem monotone_builtinCall2 (cfg : Cfg) (f : γ → Task → M Value) (b : Builtin) (ts : List TId) (d1 : Nat)
+    (hmono : monotone f) : monotone (fun x => builtinCall2 cfg (f x) b ts d1) := by
+  unfold builtinCall2
+  mono_all hmono
+
+@[partial_fixpoint_monotone]
 theorem monotone_thunkBody (cfg : Cfg) (f : γ → Task → M Value) (p : Pending) (d : Nat)
     (hmono : monotone f) : monotone (fun x => thunkBody cfg (f x) p d) := by
   unfold thunkBody
